@@ -570,7 +570,7 @@ pub fn minimise(
                     if over(&t0) {
                         break;
                     }
-                    let bit = 1u8 << k;
+                    let bit = 1u16 << k;
                     let f = &case.graph.fns[i];
                     let set = if which == 0 { f.reads & bit } else { f.writes & bit };
                     if set == 0 {
